@@ -75,6 +75,11 @@ impl Shard {
 				if over > 0 {
 					*self.report.counters.entry("executions_with_log_queue_over_128MiB".to_string()).or_insert(0) += over;
 				}
+				let spins = MAX_OBSERVER_SPINS.swap(0, std::sync::atomic::Ordering::SeqCst);
+				if spins > 0 {
+					let e = self.report.counters.entry("max_observer_steps_until_drained".to_string()).or_insert(0);
+					*e = (*e).max(spins);
+				}
 				let kept = KEPT_LOGS_AT_LIMIT.swap(0, std::sync::atomic::Ordering::SeqCst);
 				if kept > 0 {
 					*self.report.counters.entry("executions_with_16_applied_log_files_kept".to_string()).or_insert(0) += kept;
